@@ -298,17 +298,17 @@ entry("interleave_nat", "Þ∞ Y", 1, 1, m_il_nat, needs="any", out="mixed")
 entry("prefixes", "K", 1, 0, m_prefixes, needs="any", out="list", keeps=("inj",))
 entry("cumsum", "¦", 1, 1, m_cumsum, needs="num")
 entry("deltas", "¯", 1, 1, m_deltas, needs="num")
-entry("windows3", "3l", 1, 2, m_windows(3), needs="any", out="list", keeps=("inj",))
-entry("windows2", "2l", 1, 1, m_windows(2), needs="any", out="list", keeps=("inj",))
-entry("chunks3", "3ẇ", 3, 0, m_chunks(3), needs="any", out="list", keeps=("inj",))
-entry("chunks2", "2ẇ", 2, 0, m_chunks(2), needs="any", out="list", keeps=("inj",))
+# parametrised entries are generated for every small parameter value (size thresholds / fast paths for 1)
+for _k in (1, 2, 3, 4):
+    entry(f"windows{_k}", f"{_k}l", 1, _k - 1, m_windows(_k), needs="any", out="list", keeps=("inj",))
+    entry(f"chunks{_k}", f"{_k}ẇ", _k, 0, m_chunks(_k), needs="any", out="list", keeps=("inj",))
 entry("flatten", "f", 1, 0, m_flatten, needs="nonempty", out="num")
 entry("enumerate", "ė", 1, 0, m_enumerate, needs="any", out="list", keeps=("inj",))
 entry("prepend0", "0p", 1, 0, m_prepend0, needs="any", out="same")
 entry("append0", "0 J", 1, 0, m_ident, needs="any", out="same", keeps=("inj", "consec"))
 entry("merge_nat", "Þ∞ J", 1, 0, m_ident, needs="any", out="same", keeps=("inj", "consec"))
-entry("from5", "5ȯ", 1, 5, m_drop(5), needs="any", out="same", keeps=("inj", "consec"))
-entry("from3", "3ȯ", 1, 3, m_drop(3), needs="any", out="same", keeps=("inj", "consec"))
+for _k in (0, 1, 2, 3, 5, 8):
+    entry(f"from{_k}", f"{_k}ȯ", 1, _k, m_drop(_k), needs="any", out="same", keeps=("inj", "consec"))
 entry("behead", "Ḣ", 1, 1, m_drop(1), needs="any", out="same", keeps=("inj", "consec"))
 entry("head_extract", "ḣ $ _", 1, 1, m_drop(1), needs="any", out="same", keeps=("inj", "consec"))
 entry("uniquify", "U", 1, 0, m_ident, needs="inj", out="same", keeps=("inj", "consec"))
@@ -319,6 +319,14 @@ entry("every_2nd_fn2", "⁽d Ẇ", 1, 0, m_every_other(lambda x: 2 * x, True), n
 entry("unint_a", "y _", 2, 0, m_step2(0), needs="any", out="same", keeps=("inj",))
 entry("unint_b", "y $ _", 2, 0, m_step2(1), needs="any", out="same", keeps=("inj",))
 entry("every_2nd", "2 Ḟ", 2, 0, m_step2(0), needs="any", out="same", keeps=("inj",))
+entry("every_1st", "1 Ḟ", 1, 0, m_ident, needs="any", out="same", keeps=("inj", "consec"))
+entry("every_3rd", "3 Ḟ", 3, 0, lambda s: itertools.islice(s, 0, None, 3), needs="any", out="same", keeps=("inj",))
+# flatten where a SUBLIST is itself infinite: only the first sublist is ever reached
+entry("wrap_flatten", "w f", 1, 0, m_ident, needs="num", out="num", keeps=("inj", "consec"))
+entry("pair_flatten", ": \" f", 1, 0, m_ident, needs="num", out="num", keeps=("inj", "consec"))
+entry("nested_inf_flatten", "ƛ Þ∞ + ; f", 1, 0, lambda s: (next(iter([x])) + i + 1 for x in itertools.islice(s, 1) for i in itertools.count()),
+      needs="num", out="num", first_only=True)
+entry("wrap_head", "w h", 1, 0, m_ident, needs="any", out="same", keeps=("inj", "consec"))
 entry("map_sum", "ƛ∑;", 1, 0, m_mapsum, needs="list", out="num")
 entry("powerset", "ṗ", 1, 0, m_powerset, needs="any", out="list", first_only=True)
 entry("sublists", "ÞS", 1, 0, m_sublists, needs="any", out="list", first_only=True)
@@ -447,7 +455,7 @@ class C14(core.Check):
         "density-sensitive transformations (filters, uniquify, remove, group) are only placed where the input stream "
         "keeps the property their bound needs",
     ]
-    rule = ("one run = a pipeline of 1-3 catalogued transformations (67 entries) applied by transpiled program text to an "
+    rule = ("one run = a pipeline of 1-3 catalogued transformations (80 entries) applied by transpiled program text to an "
             "instrumented infinite source, plus a demand schedule (index / first-n / stepping / resumption / two "
             "pipelines over `:`-copies pulled alternately / abandonment), n <= 40. distinct = distinct (pipeline(s), "
             "demand pattern, n); non-trivial = every run (each is judged on termination, pull bound and values).")
